@@ -252,6 +252,23 @@ def run_shard(shard, tier, seed):
                         continue
                     t.identity = idn
                     compare(rep, "get_module_info", f, idn, call(d.get_module_info, 2), "module")
+            # two racks bridged over Ethernet, a different module in every slot of both: get_module_info(slot) on a driver connected
+            # through the bridge is about the REMOTE rack's slot
+            for dpath, pre in (("10.0.0.1/bp/1/enet/10.11.12.13/bp/0", ((1, b"\x01"), (2, b"10.11.12.13"))), ("10.0.0.1/bp/3", ()), ("10.0.0.1/bp/1/enet/10.11.12.13/bp/2/enet/10.20.30.40/bp/1", ((1, b"\x01"), (2, b"10.11.12.13"), (1, b"\x02"), (2, b"10.20.30.40")))):
+                t = make_target()
+                topo = {}
+                for rack, prefix in enumerate((pre, ()) if pre else ((),)):
+                    for slot in range(5):
+                        topo[tuple(prefix) + ((1, bytes([slot])),)] = dict(base(), product_code=1000 * (rack + 1) + slot, serial=0x1000 * (rack + 1) + slot, product_name=f"rack{rack}-slot{slot}".encode())
+                if pre:
+                    topo[(pre[0],)] = dict(base(), product_code=7, product_name=b"bridge")
+                t.identity_by_route = topo
+                with net.World(t, io_budget=10**7):
+                    d = pycomm3.CIPDriver(dpath)
+                    d.open()
+                    for slot in range(5):
+                        want_idn = topo[tuple(pre) + ((1, bytes([slot])),)]
+                        compare(rep, "get_module_info/topology", "slot", want_idn, call(d.get_module_info, slot), "module")
         else:
             micro = ep.endswith("micro800")
             t = make_target()
